@@ -48,6 +48,17 @@
    msgChan is closed by its only sender, after that sender's last send (invariant invA.a_msg in
    Proofs/Writer_proofs.v; a stop() started by the writer would break exactly this).
 
+   Fragmented terminal messages: packageParse.parse hands the reader EVERY sub-package as a message of its
+   own (Header.SubPackageSum > 0, SubcontractComplete = false: hasComplete() = false) and, right after the
+   last one, the merged message (SubcontractComplete = true: hasComplete() = true, body = the concatenation).
+   All of them go through msgChan.  The writer's guard in front of the matcher is `len(record) > 0 &&
+   msg.hasComplete()` and the one in front of defaultReplyEvent `msg.hasComplete() || !c.filter`, so with the
+   default FilterSubcontract = true a sub-package ([TFrag]) is taken from msgChan and dropped, and the merged
+   message is an ordinary complete message: a [TResp] / [TAttr] / [TOther] like one that came in a single
+   frame.  A response sent in k sub-packages is therefore the terminal sending k [TFrag]s and, with the last
+   one, the response itself.  (The reassembly is C05's model; the 5 s re-request through reissuePackChan is
+   C14's and not in this model.)
+
    Serial numbers: uint16, [next_serial].  Overwriting a record entry that is still in use (the serial
    counter went round while a command, its timer or its timeout message was still there) is reported as
    the observation [OReuse]; the theorems about matching assume it does not happen (65 536 frames would
@@ -65,7 +76,8 @@ Inductive tmsg :=
 | TResp (typ echo : N)           (* 0x0001 0x0104 0x0805 0x1205 0x1206, body parses, echoes serial [echo] *)
 | TBad (typ : N)                 (* one of those five (or 0x1003) with a body that does not parse *)
 | TAttr                          (* 0x1003: carries no serial *)
-| TOther (tag : N) (reply : bool). (* any other handled message; tag = its terminal serial; reply = HasReply() *)
+| TOther (tag : N) (reply : bool)  (* any other handled message; tag = its terminal serial; reply = HasReply() *)
+| TFrag.                         (* one sub-package of a fragmented message: hasComplete() = false *)
 
 Inductive cres := RResp (m : tmsg) | RTimeout | RWriteFail | RNoExist.
 
@@ -276,6 +288,7 @@ Definition step_wmsg (s : st) (pick : N) (wok : bool) : option (st * list obs) :
         match m with
         | TResp _ e => let (s2, o) := complete s1 e (RResp m) in Some (s2, OSeen m :: o)
         | TBad _ => Some (s1, [OSeen m])
+        | TFrag => Some (s1, [OSeen m])     (* not complete: neither matched nor answered (FilterSubcontract) *)
         | TAttr =>
             if existsb (fun p => is_9003 (snd p)) (rec s) then
               match lookup pick (rec s) with
